@@ -142,7 +142,7 @@ def check(run: Run, lean: dict) -> int:
     for xml, ops in corpus():
         rows.append(run_history(run, "corpus", xml, seed_ops=ops))
     for i in range(n):
-        rows.append(run_history(run, "generated", run.rng.choice(E.DOCS), length=run.rng.randint(8, 20)))
+        rows.append(run_history(run, "generated", E.pick_doc(run.rng), length=run.rng.randint(8, 20)))
     if ok:
         compare_with_model(run, "model", rows)
     return run.finish(lean, LEVEL, ASSUME, search=search)
@@ -156,7 +156,7 @@ def search(run: Run):
         if bad:
             return [{"case": c, "detail": bad}]
     for i in range(3000):
-        case, _, _, _, bad = run_history(probe, "search", probe.rng.choice(E.DOCS), length=probe.rng.randint(8, 25))
+        case, _, _, _, bad = run_history(probe, "search", E.pick_doc(probe.rng), length=probe.rng.randint(8, 25))
         if bad and "generator" not in bad.get("why", ""):
             return [{"case": shrink(case), "detail": bad}]
     return None
